@@ -223,6 +223,14 @@ var c10RangeShapes = []string{
 var c10Arrays = []string{`{@split {0} " "}`, `{@ {1} {2} {3}}`, `{@range 1 5}`, `{@split {path} /}`, `{@ {verb} {code}}`, `{$ {2} 7 {line}}`, `{@split {0}}`}
 var c10Subs = []string{`{upper {0}}`, `{len {0}}`, `{sumi {0} {code}}`, `{isnum {0}}`, `{prefix {0} G}`, `{0}{verb}`, `{multi {0} 2}`, `{eq {0} {1}}`, `{substr {0} 0 2}`, `{if {isint {0}} {sumi {0} 1} x}`, `{src}:{0}`}
 
+// shapes of the math family ({! expr}: a per-call-site pooled context that counts conversion errors): operands are
+// groups that are numeric on some lines and text or missing on others
+var c10MathShapes = []string{
+	`{! [code] * 2 + 1}`, `{! [2] / 100}`, `{! [code] + [line]}`, `{! [3] + 1}`, `{! [1] * 2}`, `{! ([code] - 200) * [line]}`,
+	`{! [code] + 1} {! [path] + 1}`, `{! [line] * 3}:{! [verb] - 1}`, `{sumi {! [code] % 7} 1}`, `k{! 2 + 2}-{! [line] + 0}`,
+	`{if {isnum {3}} {! [3] * 2} {! [code] * 2}}`, `{! [code] > 300}`, `{! round([code] / 7)}`,
+}
+
 // shapes of the time-parsing family: %D is a date-valued expression
 var c10TimeShapes = []string{
 	`{time %D}`,
@@ -254,11 +262,14 @@ func init() {
 			}
 		}
 		sort.Strings(fns)
-		family := []string{"builtin", "builtin", "funcs", "funcs", "time", "range", "timeparse", "timefuncs"}[t.W(8)]
+		family := []string{"builtin", "builtin", "funcs", "funcs", "time", "range", "timeparse", "timefuncs", "math"}[t.W(9)]
 		sc := genPipeScenario(rc, true, 30)
 		sc.MatcherKind, sc.Pattern, sc.IgnoreCase = 1, c10Pattern, false
 		sc.Ignores = nil
 		sc.Workers = t.WRange(1, 4)
+		if family == "math" && sc.Workers == 1 {
+			sc.Workers = 2 + t.W(3)
+		}
 		if family == "range" && sc.Workers == 1 {
 			sc.Workers = 2 + t.W(3) // the pooled sub-expression contexts are the subject: share them
 		}
@@ -457,6 +468,9 @@ func init() {
 					shape = strings.Replace(shape, "%S", c10Subs[t.W(len(c10Subs))], 1)
 				}
 				tpl, refTpl = shape, shape
+			case "math":
+				tpl = c10MathShapes[t.W(len(c10MathShapes))]
+				refTpl = tpl
 			case "timeparse":
 				shape := c10TimeShapes[t.W(len(c10TimeShapes))]
 				d := c10DateExprs[t.W(len(c10DateExprs))]
@@ -642,6 +656,8 @@ func init() {
 						switch family {
 						case "funcs":
 							cl = "funcs-file-differs"
+						case "math":
+							cl = "math-differs"
 						case "range":
 							cl = "range-helpers-differ"
 						case "timeparse":
